@@ -17,10 +17,19 @@ type Regexp struct {
 	r *regexp.Regexp
 }
 
+// compiled returns the compiled regular expression of re. It panics if re is
+// the zero Regexp, that is if re has not been returned by the RegExp function.
+func (re Regexp) compiled() *regexp.Regexp {
+	if re.r == nil {
+		panic("regexp: method called on a zero Regexp value")
+	}
+	return re.r
+}
+
 // Match reports whether the string s contains any match of the regular
 // expression.
 func (re Regexp) Match(s string) bool {
-	return re.r.MatchString(s)
+	return re.compiled().MatchString(s)
 }
 
 // Find returns a string holding the text of the leftmost match in s of the
@@ -29,14 +38,14 @@ func (re Regexp) Match(s string) bool {
 // matches an empty string. Use [Regexp.FindSubmatch] if it is necessary to
 // distinguish these cases.
 func (re Regexp) Find(s string) string {
-	return re.r.FindString(s)
+	return re.compiled().FindString(s)
 }
 
 // FindAll is the 'All' version of Find; it returns a slice of all successive
 // matches of the expression, as defined by the 'All' description in the Go
 // regexp package comment. A return value of nil indicates no match.
 func (re Regexp) FindAll(s string, n int) []string {
-	return re.r.FindAllString(s, n)
+	return re.compiled().FindAllString(s, n)
 }
 
 // FindAllSubmatch is the 'All' version of [Regexp.FindSubmatch]; it returns a
@@ -44,7 +53,7 @@ func (re Regexp) FindAll(s string, n int) []string {
 // description in the Go regexp package comment. A return value of nil
 // indicates no match.
 func (re Regexp) FindAllSubmatch(s string, n int) [][]string {
-	return re.r.FindAllStringSubmatch(s, n)
+	return re.compiled().FindAllStringSubmatch(s, n)
 }
 
 // FindSubmatch returns a slice of strings holding the text of the leftmost
@@ -52,7 +61,7 @@ func (re Regexp) FindAllSubmatch(s string, n int) [][]string {
 // subexpressions, as defined by the 'Submatch' description in the Go regexp
 // package comment. A return value of nil indicates no match.
 func (re Regexp) FindSubmatch(s string) []string {
-	return re.r.FindStringSubmatch(s)
+	return re.compiled().FindStringSubmatch(s)
 }
 
 // ReplaceAll returns a copy of s, replacing matches of the Regexp with the
@@ -60,7 +69,7 @@ func (re Regexp) FindSubmatch(s string) []string {
 // method of the Go regexp package, so for instance $1 represents the text of
 // the first submatch.
 func (re Regexp) ReplaceAll(s, repl string) string {
-	return re.r.ReplaceAllString(s, repl)
+	return re.compiled().ReplaceAllString(s, repl)
 }
 
 // ReplaceAllFunc returns a copy of s in which all matches of the [Regexp]
@@ -68,7 +77,7 @@ func (re Regexp) ReplaceAll(s, repl string) string {
 // matched substring. The replacement returned by repl is substituted
 // directly, without expanding.
 func (re Regexp) ReplaceAllFunc(s string, repl func(string) string) string {
-	return re.r.ReplaceAllStringFunc(s, repl)
+	return re.compiled().ReplaceAllStringFunc(s, repl)
 }
 
 // Split slices s into substrings separated by the expression and returns a
@@ -84,5 +93,5 @@ func (re Regexp) ReplaceAllFunc(s string, repl func(string) string) string {
 //	n == 0: the result is nil (zero substrings)
 //	n < 0: all substrings
 func (re Regexp) Split(s string, n int) []string {
-	return re.r.Split(s, n)
+	return re.compiled().Split(s, n)
 }
